@@ -96,7 +96,10 @@ pub open spec fn int_type_of_width(w: u8) -> types::Type {
     if w == 255 { ptr_ty_spec() } else if w == 0 || w == 32 { types::I32 } else if w == 8 { types::I8 }
     else if w == 16 { types::I16 } else if w == 64 { types::I64 } else { types::I128 }
 }
+/// `Ty::is_zero_sized` (uninterpreted here; ASSUMED false for the scalar types, see the stub)
+pub uninterp spec fn ty_zero_sized(ty: Ty) -> bool;
 pub open spec fn final_ok(ty: Ty, f: FinalTy) -> bool {
+    if ty_zero_sized(ty) { f == FinalTy::Void } else {
     match ty {
         Ty::IInt(w) => f == FinalTy::Number(NumberType { ty: int_type_of_width(w), float: false, signed: true }),
         // `{uint}` (width 0) has no unsigned 32-bit default: it is an i32
@@ -107,7 +110,7 @@ pub open spec fn final_ok(ty: Ty, f: FinalTy) -> bool {
         Ty::Distinct { sub_ty, .. } => f == tfinal(*sub_ty.0),
         Ty::EnumVariant { sub_ty, .. } => f == tfinal(*sub_ty.0),
         _ => true,
-    }
+    } }
 }
 
 // ---- arithmetic lemmas -------------------------------------------------------------------
